@@ -512,6 +512,14 @@ class Interp:
         raise Unsupported('place ' + str(pl))
 
     def read(self, fr, st, pl):
+        if pl[0] == 'field' and len(pl) > 3 and pl[1][0] == 'field' and len(pl[1]) > 3 and pl[3].startswith('std::ptr::NonNull<dyn ') \
+                and pl[1][3].startswith('std::ptr::Unique<dyn '):
+            # the raw pointer inside a Box<dyn Trait>: boxed trait objects are modelled as the value itself (From<T> for Box<dyn ..> is the
+            # identity), so the pointer is the address of that value
+            a0, pr0 = self.loc(fr, st, pl[1][1])
+            base = project(st.store[a0], pr0)
+            if not (isinstance(base, Agg) and base.name in ('Box', 'std::boxed::Box')):
+                return Ptr(a0, pr0)
         a, pr = self.loc(fr, st, pl)
         if pr and pr[-1][0] == 'I':
             base = project(st.store[a], pr[:-1])
